@@ -218,17 +218,41 @@ func encode(krb5data []byte) (r []byte, err error) {
 }
 
 func awaitReply(conn net.Conn, isUdp bool, reply chan<- []byte) {
-	resp, err := io.ReadAll(conn)
+	resp, err := readReply(conn, isUdp)
 	if err != nil {
 		log.Printf("error reading from kdc due to %s", err)
 		reply <- nil
 		return
 	}
-	if isUdp {
-		// udp will be missing the length prefix so add it
-		prefix := make([]byte, 4)
-		binary.BigEndian.PutUint32(prefix, uint32(len(resp)))
-		resp = append(prefix, resp...)
-	}
 	reply <- resp
+}
+
+// readReply reads one kerberos message from a kdc: a single datagram over udp
+// (which gets the length prefix the client expects) or a length prefixed
+// message over tcp. Reading until the kdc closes the connection never ends
+// for udp and for kdcs that keep their tcp connections open.
+func readReply(conn net.Conn, isUdp bool) ([]byte, error) {
+	if isUdp {
+		buf := make([]byte, 4+maxLength)
+		n, err := conn.Read(buf[4:])
+		if err != nil {
+			return nil, err
+		}
+		binary.BigEndian.PutUint32(buf, uint32(n))
+		return buf[:4+n], nil
+	}
+	prefix := make([]byte, 4)
+	if _, err := io.ReadFull(conn, prefix); err != nil {
+		return nil, err
+	}
+	length := binary.BigEndian.Uint32(prefix)
+	if length > maxLength {
+		return nil, fmt.Errorf("kdc reply of %d bytes exceeds the maximum of %d", length, maxLength)
+	}
+	resp := make([]byte, 4+length)
+	if _, err := io.ReadFull(conn, resp[4:]); err != nil {
+		return nil, err
+	}
+	binary.BigEndian.PutUint32(resp, length)
+	return resp, nil
 }
